@@ -93,6 +93,7 @@ SumW(s, a, b) == IF a > b THEN 0 ELSE s[a].w + SumW(s, a + 1, b)
 RECURSIVE SumH(_, _, _)
 SumH(s, a, b) == IF a > b THEN 0 ELSE s[a].h + SumH(s, a + 1, b)
 CellSlots(c) == {<<y, x>> : y \in c.r..(c.r + c.rs - 1), x \in c.x..(c.x + c.cs - 1)}
+NearN(a, b, tol) == a - b <= tol /\ b - a <= tol
 F(cond, name) == IF cond THEN {name} ELSE {}
 \* the set of clauses of C13 that the laid-out table g violates
 \* The clauses are stated in inline-start coordinates: the geometry of a right-to-left table is mirrored about the vertical
@@ -117,7 +118,8 @@ FailuresLtr(g) ==
         \cup F(\E i \in I : ~Near(C[i].h, SumH(g.rows, C[i].r, C[i].r + C[i].rs - 1) + (C[i].rs - 1) * g.bsv), "cell-height-is-not-its-rows-plus-spacing")
         \cup F(\E j \in 1..(n - 1) : ~Near(g.cols[j + 1].p, g.cols[j].p + g.cols[j].w + g.bsh), "columns-not-separated-by-border-spacing")
         \cup F(\E j \in 1..(m - 1) : ~Near(g.rows[j + 1].p, g.rows[j].p + g.rows[j].h + g.bsv), "rows-not-separated-by-border-spacing")
-        \cup F(n > 0 /\ ~Near(SumW(g.cols, 1, n) + (n + 1) * g.bsh, g.tw), "columns-plus-spacing-do-not-fill-the-table")
+        \* (every column width is observed rounded to 1/64 px: the sum of n of them may be off by n/2 units)
+        \cup F(n > 0 /\ ~NearN(SumW(g.cols, 1, n) + (n + 1) * g.bsh, g.tw, 3 + n), "columns-plus-spacing-do-not-fill-the-table")
         \cup F(n > 0 /\ ~Near(g.cols[1].p, g.tx + g.bsh), "first-column-not-at-the-table-edge")
         \cup F(g.spec > 0 /\ g.tbw < g.spec - 3, "table-narrower-than-its-specified-width")
         \cup F(\E i \in I : C[i].cs = 1 /\ ~g.fixed /\ C[i].cw < C[i].minw - 3, "cell-narrower-than-its-longest-word")
